@@ -462,13 +462,16 @@ def adt_field_names(adt):
     return [f['name'] for f in adt['variants'][0]['fields']]
 
 
-def resolve_ref(body, local, limit=12):
+def resolve_ref(body, local, limit=12, stop_at_multi=False):
     """follow single-definition chains `_a = &[mut] (*_b)` / `_a = move _b` back to the place
-    whose address was originally taken; returns that place (json) or None"""
+    whose address was originally taken; returns that place (json) or None.
+    stop_at_multi: a local assigned more than once (a `let mut` variable) ends the chain and is returned"""
     cur = local
     for _ in range(limit):
         defs = body.defs.get(cur, [])
         if len(defs) != 1:
+            if stop_at_multi and len(defs) > 1 and cur != local:
+                return {'l': cur, 'p': []}
             return None
         bi, si, kind, s = defs[0]
         if kind != 'assign':
